@@ -35,17 +35,19 @@ CHECKS = {
     "C05": (True, "exploration", "schedule exploration with a cooperative scheduler on named yield points + porcupine linearizability oracle; free-running variant for volume",
             "Generated concurrent histories (2-4 tasks of Put/Get/Has/GetSize/Remove, optional Flush task, keys concentrated in one or two buckets) run on the real store under a cooperative scheduler that parks tasks at the named points between the "
             "non-atomic sub-steps and follows generated schedules (single long preemption at a drawn point, PCT-style priorities, random walks); every call must return without error and the recorded history, with final reads appended, must be "
-            "linearizable with respect to a per-key register (porcupine). A free-running variant with a 1 ms flusher adds volume. Schedules are controlled at the granularity of the named points; real locks are used, so every explored execution is a real execution.",
+            "linearizable with respect to a per-key register (porcupine). A free-running variant with a 1 ms flusher adds volume, and a volume sub-campaign (4-8 goroutines x 10-100 rounds, each goroutine the only user of its own keys while sharing buckets and files, next to a tight-loop Flush caller; every result is compared with the owner's own model, then read-back, reopen, reopen by rescan and fsck) reaches windows that hold no named point. "
+            "Schedules are controlled at the granularity of the named points; real locks are used, so every explored execution is a real execution.",
             BASE + " porcupine v1.3.0 is the linearizability checker. Interleavings finer than the named points are only reached by the free-running variant.", "4 C05"),
     "C06": (True, "exploration", "schedule exploration (cooperative scheduler incl. points inside both collectors) + porcupine linearizability oracle + directed single-preemption shapes",
             "As C05 with single writer per key, on stores prepared so that GC really marks, merges, truncates, relocates and unlinks, with tasks running primary and index GC cycles; half of the scheduled cases have the directed shape of the windows the property names "
-            "(a foreground call parked inside the operation while a writer, a flush and GC cycles complete). No call may fail, no Get may return bytes never written for its key, and the history must be linearizable including the final reads.",
+            "(a foreground call parked inside the operation while a writer, a flush and GC cycles complete). No call may fail, no Get may return bytes never written for its key, and the history must be linearizable including the final reads. "
+            "The volume sub-campaign of C05 runs here with index GC cycles every 0.1-1 ms (CID primary, full call mix) and with both collectors (multihash primary, keys only added) - the two configurations in which the recorded finding KF-C06 cannot occur.",
             BASE + " porcupine v1.3.0. Same granularity caveat as C05.", "4 C06"),
     "C07": (True, "exploration", "property testing with an independent file-format reader (fsck) as invariant oracle after every quiescent step",
             "Random histories (all primaries, GC, reopen) during which an independent re-implementation of the on-disk formats checks every clause of the invariant after each Flush, completed GC cycle, reopen and "
             "Close: live table = own rescan = snapshot; bucket -> complete, non-deleted, correctly tagged record; entries sorted, prefix-free, distinct locations; entry -> complete, non-deleted primary record "
             "with matching size, bucket bits and stored prefix; no live location on the freelist files; first-file numbers not beyond referenced files. "
-            "A crash sub-campaign restores drawn crash images of recorded workloads, opens them and checks the same invariant on the recovered store.",
+            "A crash sub-campaign restores drawn crash images of recorded workloads, opens them and checks the same invariant on the recovered store; one history in six comes from the C09 generator (re-bucketing), and the volume cases of C05/C06 (free-running concurrent use) are judged by the fsck of the directory after Close.",
             BASE + " The fsck reader is written from the format description and shares no code with the repository; it is itself trusted.", "4 C07"),
     "C10": (True, "exploration", "property testing over generated legacy stores (own encoder of the legacy formats) + crash-point enumeration inside the conversion",
             "The harness writes version-2 single-file indexes, unversioned single-file primaries and freelists with its own encoder from generated map histories (superseded lists, pending/applied/lost freelist entries, optionally a cut primary so that "
@@ -56,9 +58,9 @@ CHECKS = {
             "Random histories followed by a generated kill phase (remove/overwrite every key in non-current primary files, rewrite every bucket referring into non-current index files, flush) and rounds of "
             "[primary GC, index GC, flush]; checked: a byte-identical fixed point is reached within a generous bound derived from the cycle structure, every fully dead primary file and every unreferenced index file "
             "is empty or gone there, no non-current file is still low-use by the threshold, StorageSize never grows inside a cycle and grows at the following flush by at most the outstanding (relocated) work. "
-            "A crash sub-campaign runs the same closure on stores recovered from crash images (orphan records, lost freelist entries). Liveness is checked in this bounded form, which is what generated-input search can give.",
+            "The index cycles of the closure scan for unreferenced files every other time, never or always (drawn per case). A crash sub-campaign runs the same closure on stores recovered from crash images (orphan records, lost freelist entries, torn tails). Liveness is checked in this bounded form, which is what generated-input search can give.",
             BASE + " Thresholds are fixed per case; threshold 0 (every file permanently low-use) is excluded from the fixed-point clause.", "4 C11"),
-    "C03": (True, "fault_enumeration", "crash-point enumeration over generated workloads (named points capture every intermediate directory image; torn-write synthesis; durability-model oracle; post-recovery model-based history)",
+    "C03": (True, "fault_enumeration", "crash-point enumeration over generated workloads (named points capture every intermediate directory image; torn-write synthesis; durability-model oracle; post-recovery model-based history; second crash after the recovered store's next flush)",
             "Generated workloads (puts, overwrites, removals, flushes, iteration, GC cycles with and without unflushed data and budgets, close/reopen) run with a handler on ~140 named points that snapshots the directory before every file-system step; "
             "consecutive images are diffed into single steps, and every byte prefix of every written region is synthesised as a torn state (a self-check counts steps that have no point in between as hook_gaps, so the enumeration is complete with respect to the code that ran). "
             "Each crash image is restored and opened; the open must succeed, every key must read a value it legitimately had between the last completed Flush/Close and the crash instant (for every instant the same bytes were on disk), never foreign bytes, and a generated suffix "
@@ -90,16 +92,16 @@ CHECKS = {
             "Close of a lent handle must succeed, descriptors on the test files (/proc/self/fd) must not exceed capacity + lent handles, and nothing may stay open at the end.",
             BASE + " Descriptor accounting reads /proc/self/fd (Linux).", "4 C14"),
     "C15": (True, "exploration", "model-based property testing of the blockstore adapter (rapid call sequences vs. map keyed by multihash + contract clauses)",
-            "Random sequences of Put/PutMany/Get/Has/GetSize/DeleteBlock/HashOnRead with live and cancelled contexts over blocks of many sizes, CID versions, codecs and hash functions, alias CIDs of one multihash, and deliberately "
+            "Random sequences of Put/PutMany/Get/Has/GetSize/DeleteBlock/HashOnRead with live and cancelled contexts over blocks of many sizes, CID versions, codecs and hash functions (truncated digests and multihashes longer than 64 bytes included), alias CIDs of one multihash, close/reopen of the blockstore between calls, and deliberately "
             "mismatching (data, CID) pairs; each result is compared with a map keyed by multihash and with the contract clauses (not-found error class, ErrWrongHash exactly when enabled and mismatching, no effect of cancelled calls).",
             BASE, "4 C15"),
     "C16": (True, "exploration", "generated concurrent programs executed under the Go race detector (free-running; reports parsed into signatures)",
             "Random concurrent programs (3-8 goroutines looping over the whole public API incl. all storage-size queries, file-cache resizing, iteration and explicit primary GC) on a started store with sub-millisecond to millisecond sync and GC intervals and tiny files, "
-            "built with -race; no scheduler and no point handler are installed because they would add happens-before edges. Every race report is a violation, identified by the innermost module frames of the two accesses.",
+            "built with -race, with SyncOnFlush and rate-limiter back-pressure as drawn dimensions and, in two of seven programs, an environment fault (stray file or directory at the next file name) that makes a background flush fail so that the sticky-error paths run concurrently; no scheduler and no point handler are installed because they would add happens-before edges. Every race report is a violation, identified by the innermost module frames of the two accesses.",
             BASE + " The Go race detector is the oracle: sound for the executions that happened, silent about code that did not run concurrently. Index GC cycles are only run by the store's own collector (the verif wrapper is not used here).", "4 C16"),
     "C17": (True, "exploration", "schedule exploration with adopted background goroutines + resource census (goroutines by stack, /proc/self/fd, directory hashes)",
-            "Four generated situations: Close issued while a collector or the flusher is held by the cooperative scheduler at a drawn point inside a cycle (the store's own goroutines are adopted as tasks at their first named point), Close after free-running activity with 1 ms timers, "
-            "failing opens of existing stores (size mismatches, garbage/empty headers, unknown primary type), and repeated open/close cycles. Right after Close (or the failed open) returns there must be no goroutine with a module frame, no descriptor into the store directory, "
+            "Five generated situations: Close issued while a collector or the flusher is held by the cooperative scheduler at a drawn point inside a cycle (the store's own goroutines are adopted as tasks at their first named point), Close after free-running activity with 1 ms timers, "
+            "failing opens of existing stores (size mismatches, size mismatches together with another bit size so that the open fails inside the index translation, a missing index file during translation, garbage/empty headers, unknown primary type), repeated open/close cycles, and Close with an injected environment fault (stray file or directory that makes the flush or the bucket snapshot inside Close fail: Close may return the error but must release everything). Right after Close (or the failed open) returns there must be no goroutine with a module frame, no descriptor into the store directory, "
             "and the directory must stay byte-identical across a pause and after all held goroutines were released; second Close nil; reopen works.",
             BASE + " Goroutines are identified by module frames in runtime.Stack, descriptors by /proc/self/fd (Linux).", "4 C17"),
 }
